@@ -596,8 +596,9 @@ def brle_reverse(brle_data):
     """Equivalent to dense_to_brle(brle_to_dense(brle_data)[-1::-1])."""
     if len(brle_data) % 2 == 0:
         brle_data = np.concatenate([brle_data, [0]], axis=0)
-    end = -1 if brle_data[-1] == 0 else None
-    return brle_data[-1:end:-1]
+    # an odd number of counts ends with a run of `False`
+    # so the reversed counts start with a run of `False`
+    return brle_data[::-1]
 
 
 def rle_reverse(rle_data):
